@@ -31,6 +31,9 @@ CONSTANTS Mode,     \* "c03": all storage combinations; "c09": operands of the r
           Cap,      \* bound on the number of content pairs per (family, receiver)
           Sim,      \* TRUE: contents are drawn at random (for -simulate), vector sizes up to SimN
           SimN,
+          ZeroVar,  \* TRUE: operand a ranges over {0, zero-valued VARIABLE, 1}: an element <<0, d>> with d # 0
+                    \* (value zero, derivative not: not a zero of a magic element type; the symbol 9 stands for it)
+          Part,     \* "all", or one group of operation families: "vec" | "mat" | "prod" (to split large runs)
           Emit      \* print the cases
 
 VARIABLES ph, fam, rcv, c, rx, ry
@@ -38,6 +41,8 @@ vars == <<ph, fam, rcv, c, rx, ry>>
 
 V3    == {0, 1, -2}
 V2a   == {0, 1}
+VA3   == IF ZeroVar THEN {0, 9, 1} ELSE V3      \* domains of operand a
+VA2   == IF ZeroVar THEN {9, 1} ELSE V2a
 V2b   == {0, -2}
 D3    == {0, 2, -4}         \* numerators: every quotient by a non-zero element of V3 is exact
 D2    == {0, 2}
@@ -47,7 +52,8 @@ SVals == {0, 1, -2}         \* scalar operands of the broadcast operations
 Wa(k) == k
 Wb(k) == 3 - 2 * k
 Ws    == 3
-MkA(vs) == SeqOf(Len(vs), LAMBDA k : Dual(vs[k], Wa(k)))
+DualOf(v, w) == IF v = 9 THEN <<0, w>> ELSE Dual(v, w)
+MkA(vs) == SeqOf(Len(vs), LAMBDA k : DualOf(vs[k], Wa(k)))
 MkB(vs) == SeqOf(Len(vs), LAMBDA k : Dual(vs[k], Wb(k)))
 MkS(v)  == Dual(v, Ws)
 MkV(vs) == SeqOf(Len(vs), LAMBDA k : <<vs[k], 0>>)     \* plain values (construction from value lists)
@@ -57,7 +63,7 @@ Tuples(n, D) == IF n = 0 THEN {<<>>} ELSE [1..n -> D]
 Len2(rows, cols) == IF cols < 0 THEN rows ELSE rows * cols
 
 (* ---- representations --------------------------------------------------- *)
-NonZero(cc) == {i \in 1..Len(cc) : cc[i][1] # 0}
+NonZero(cc) == {i \in 1..Len(cc) : cc[i] # Z}
 Stored(k, cc) == CASE k = "d" -> 1..Len(cc)
                    [] k = "s" -> NonZero(cc)
                    [] k = "z" -> 1..Len(cc)
@@ -110,13 +116,20 @@ MatShapes == {<<0, 0>>, <<1, 1>>, <<1, 2>>, <<2, 1>>, <<2, 2>>} \cup (IF Big = 1
 PosShapes == {sh \in MatShapes : sh[1] > 0}
 Inner     == IF Big = 1 THEN 1..3 ELSE 1..2
 
-Families ==
+AllFamilies ==
      {Fam(op, n, -1, 0) : op \in {"VaddV", "VsubV", "VmulV", "VdivV", "VaddS", "VsubS", "VmulS", "VdivS",
                                   "Set", "Reset", "Equals", "VdotV", "As", "New"}, n \in VecLens}
 \cup {Fam(op, sh[1], -1, sh[2]) : op \in {"MdotV", "VdotM"}, sh \in PosShapes}
 \cup {Fam(op, sh[1], sh[2], 0) : op \in {"MaddM", "MsubM", "MmulM", "MdivM", "MaddS", "MsubS", "MmulS", "MdivS",
                                          "Set", "Reset", "SetIdentity", "Equals", "As", "New", "Outer"}, sh \in MatShapes}
 \cup {Fam("MdotM", q[1][1], q[1][2], q[2]) : q \in {z \in PosShapes \X Inner : z[1][1] * z[2] <= 6 /\ z[2] * z[1][2] <= 6}}
+
+\* the quotient of a zero-valued variable is not an integer and value lists carry no derivatives
+PartOf(f) == IF f.op \in {"MdotV", "VdotM", "MdotM", "Outer", "VdotV"} THEN "prod"
+             ELSE IF f.cols < 0 THEN "vec" ELSE "mat"
+Families == {f \in AllFamilies :
+               /\ (Part = "all" \/ PartOf(f) = Part)
+               /\ (ZeroVar => f.op \notin {"VdivV", "VdivS", "MdivM", "MdivS", "New", "Reset", "SetIdentity"})}
 
 \* receivers of a family (the second level of the state graph)
 FamReceivers(f) ==
@@ -134,7 +147,7 @@ Doms(na, nb, A3, A2, B3, B2) ==
   ELSE <<A2, B2>>
 DomsEw(f) ==       \* <<domain of a, domain of b>> for the two-operand element-wise families
   LET n == Len2(f.rows, f.cols) IN
-  IF f.op \in {"VdivV", "MdivM"} THEN Doms(n, n, D3, D2, V3, V2b) ELSE Doms(n, n, V3, V2a, V3, V2b)
+  IF f.op \in {"VdivV", "MdivM"} THEN Doms(n, n, D3, D2, V3, V2b) ELSE Doms(n, n, VA3, VA2, V3, V2b)
 
 EqCase(f, r, a) == [op |-> f.op, r |-> r, a |-> a, b |-> NoOpd, s |-> NoS, dims |-> <<f.rows, f.cols, f.inner>>,
                     exp |-> Exp("b", <<>>, SameValues(r.c, a.c))]
@@ -151,36 +164,36 @@ ForCases(f, r, P(_)) ==
          \E x \in Tuples(n, DomsEw(f)[1]) : \E y \in Tuples(n, DomsEw(f)[2]) :
             P(Case(f.op, r, O(f.rows, f.cols, MkA(x)), O(f.rows, f.cols, MkB(y)), NoS, dims))
     [] f.op \in {"VaddS", "VsubS", "VmulS", "VdivS", "MaddS", "MsubS", "MmulS", "MdivS"} ->
-         \E x \in Tuples(n, IF f.op \in {"VdivS", "MdivS"} THEN D3 ELSE V3) : \E sv \in SVals :
+         \E x \in Tuples(n, IF f.op \in {"VdivS", "MdivS"} THEN D3 ELSE VA3) : \E sv \in SVals :
             P(Case(f.op, r, O(f.rows, f.cols, MkA(x)), NoOpd, MkS(sv), dims))
     [] f.op \in {"Set", "As"} ->   \* As: conversion of a into storage r.k (the result is a new object)
-         \E x \in Tuples(n, V3) : P(Case(f.op, r, O(f.rows, f.cols, MkA(x)), NoOpd, NoS, dims))
+         \E x \in Tuples(n, VA3) : P(Case(f.op, r, O(f.rows, f.cols, MkA(x)), NoOpd, NoS, dims))
     [] f.op \in {"Reset", "SetIdentity"} -> P(Case(f.op, r, NoOpd, NoOpd, NoS, dims))
     [] f.op = "New" ->    \* construction from index/value lists: reps = which indices are listed (zeros may be listed); s[1] = list order
          \E x \in Tuples(n, V3) : \E ord \in {0, 1} :
             P(Case(f.op, r, [rows |-> f.rows, cols |-> f.cols, c |-> MkV(x),
                              reps |-> [k \in (OpKinds(MkV(x)) \ {"d"}) |-> Stored(k, MkV(x))]], NoOpd, MkS(ord), dims))
     [] f.op = "Equals" ->  \* the receiver holds a content itself (storage r.k); the result is a boolean
-         \E x \in Tuples(n, Doms(n, n, V3, V2a, V3, {0, 1})[1]) : r.k \in OpKinds(MkA(x)) /\
-           \E y \in Tuples(n, Doms(n, n, V3, V2a, V3, {0, 1})[2]) :
+         \E x \in Tuples(n, Doms(n, n, VA3, VA2, V3, {0, 1})[1]) : r.k \in OpKinds(MkA(x)) /\
+           \E y \in Tuples(n, Doms(n, n, VA3, VA2, V3, {0, 1})[2]) :
             P(EqCase(f, Rep(r.k, f.rows, f.cols, MkA(x), "-"), O(f.rows, f.cols, MkB(y))))
     [] f.op = "VdotV" ->   \* the receiver is a scalar
-         \E x \in Tuples(n, Doms(n, n, V3, V2a, V3, V2b)[1]) : \E y \in Tuples(n, Doms(n, n, V3, V2a, V3, V2b)[2]) :
+         \E x \in Tuples(n, Doms(n, n, VA3, VA2, V3, V2b)[1]) : \E y \in Tuples(n, Doms(n, n, VA3, VA2, V3, V2b)[2]) :
             P(DotCase(f, O(n, -1, MkA(x)), O(n, -1, MkB(y))))
     [] f.op = "MdotV" ->   \* r: rows, A: rows x inner, b: inner
-         \E x \in Tuples(f.rows * f.inner, Doms(f.rows * f.inner, f.inner, V3, V2a, V3, V2b)[1]) :
-           \E y \in Tuples(f.inner, Doms(f.rows * f.inner, f.inner, V3, V2a, V3, V2b)[2]) :
+         \E x \in Tuples(f.rows * f.inner, Doms(f.rows * f.inner, f.inner, VA3, VA2, V3, V2b)[1]) :
+           \E y \in Tuples(f.inner, Doms(f.rows * f.inner, f.inner, VA3, VA2, V3, V2b)[2]) :
             P(Case(f.op, r, O(f.rows, f.inner, MkA(x)), O(f.inner, -1, MkB(y)), NoS, dims))
     [] f.op = "VdotM" ->   \* r: rows (= columns of B), a: inner, B: inner x rows
-         \E x \in Tuples(f.inner, Doms(f.inner, f.inner * f.rows, V3, V2a, V3, V2b)[1]) :
-           \E y \in Tuples(f.inner * f.rows, Doms(f.inner, f.inner * f.rows, V3, V2a, V3, V2b)[2]) :
+         \E x \in Tuples(f.inner, Doms(f.inner, f.inner * f.rows, VA3, VA2, V3, V2b)[1]) :
+           \E y \in Tuples(f.inner * f.rows, Doms(f.inner, f.inner * f.rows, VA3, VA2, V3, V2b)[2]) :
             P(Case(f.op, r, O(f.inner, -1, MkA(x)), O(f.inner, f.rows, MkB(y)), NoS, dims))
     [] f.op = "MdotM" ->   \* R: rows x cols, A: rows x inner, B: inner x cols
-         \E x \in Tuples(f.rows * f.inner, Doms(f.rows * f.inner, f.inner * f.cols, V3, V2a, V3, V2b)[1]) :
-           \E y \in Tuples(f.inner * f.cols, Doms(f.rows * f.inner, f.inner * f.cols, V3, V2a, V3, V2b)[2]) :
+         \E x \in Tuples(f.rows * f.inner, Doms(f.rows * f.inner, f.inner * f.cols, VA3, VA2, V3, V2b)[1]) :
+           \E y \in Tuples(f.inner * f.cols, Doms(f.rows * f.inner, f.inner * f.cols, VA3, VA2, V3, V2b)[2]) :
             P(Case(f.op, r, O(f.rows, f.inner, MkA(x)), O(f.inner, f.cols, MkB(y)), NoS, dims))
     [] f.op = "Outer" ->   \* R: rows x cols, a: rows, b: cols
-         \E x \in Tuples(f.rows, V3) : \E y \in Tuples(f.cols, V3) :
+         \E x \in Tuples(f.rows, VA3) : \E y \in Tuples(f.cols, V3) :
             P(Case(f.op, r, O(f.rows, -1, MkA(x)), O(f.cols, -1, MkB(y)), NoS, dims))
 
 (* ---- scalar cases (C09): the value the contract demands for the ring    *)
